@@ -24,7 +24,7 @@ def concStep (s : DState) : List String → Option (DState × String)
     | some ns, some nt =>
       let sys : Sys := { rc := 1, torn := 0, slots := List.replicate ns none, blocks := [], freed := [], nextId := 0,
                          thr := List.replicate nt ⟨0, .idle⟩ ++ [⟨1, .idle⟩] }
-      some ({ s with conc := some sys, concFrees := 0 }, "ok")
+      some ({ s with conc := some sys, concFrees := 0, data := [], dataThreads := nt + 1 }, "ok")
     | _, _ => some (s, "bad-op")
   | "ev" :: t :: rest =>
     match s.conc, t.toNat? with
